@@ -60,9 +60,12 @@ pub struct PlanCase {
     pub world: World,
     pub problems: Vec<Problem>,
     pub planner: PlannerTag,
+    #[serde(with = "crate::xf::as_xf")]
     pub step: f64,
+    #[serde(with = "crate::xf::as_xf")]
     pub goal_bias: f64,
     /// RRT*: search radius; PRM: connection radius
+    #[serde(with = "crate::xf::as_xf")]
     pub radius: f64,
     pub seed: Option<u64>,
     pub script: Option<Vec<Vec<f64>>>,
